@@ -13,7 +13,7 @@
      sign_roundtrip                 read_sign (sign_string n e t off) = Some (mkSign n e t off)
      sign_roundtrip_quarter_hours   ... for every quarter hour in [-12:00, +14:00]
      sign_string_shape              Name <email> <unix-seconds> +-HHMM
-     msg_lines                      the message comes back byte for byte when it has no '\r'
+     msg_lines                      every message comes back byte for byte (split at '\n' only, joined again)
      parse_commit_roundtrip         commit_text / parse_commit, any two readable lines
      commit_roundtrip               the two combined
    Facts about re_signRegexp go through the semantic lemmas of RegexFacts.v
@@ -556,9 +556,7 @@ Proof.
 Qed.
 
 (* ------------------------------------------------------------------ *)
-(** * 8. The message: lines scanned and joined again *)
-
-Definition msg_ok (m : bytes) : Prop := ~ In c_cr m.
+(** * 8. The message: lines split and joined again *)
 
 Lemma join_cons : forall sep l X, X <> [] -> join sep (l :: X) = l ++ sep ++ join sep X.
 Proof.
@@ -577,34 +575,11 @@ Proof.
   - apply split1_inv_none in Es. destruct Es as [E Hl]. subst l. left. exact Hl.
 Qed.
 
-Lemma msg_lines_aux : forall k m, (length m <= k)%nat -> msg_ok m ->
-  scan_lines (m ++ [c_nl]) <> [] /\ join [c_nl] (scan_lines (m ++ [c_nl])) = m.
-Proof.
-  unfold msg_ok. intro k. induction k as [|k IH]; intros m Hlen Hcr.
-  - destruct m as [|x m']; [|cbn [length] in Hlen; lia].
-    split; [discriminate | reflexivity].
-  - destruct (first_nl m) as [Hno | [l [r [E Hl]]]].
-    + rewrite (scan_lines_app_nl m [] Hno (notin_last c_cr m Hcr)), scan_lines_nil.
-      split; [discriminate | reflexivity].
-    + assert (Hcl : ~ In c_cr l).
-      { intro Hin. apply Hcr. rewrite E. apply in_or_app. left. exact Hin. }
-      assert (Hcrr : ~ In c_cr r).
-      { intro Hin. apply Hcr. rewrite E. apply in_or_app. right. right. exact Hin. }
-      assert (Hlr : (length r <= k)%nat).
-      { rewrite E, app_length in Hlen. cbn [length] in Hlen. lia. }
-      destruct (IH r Hlr Hcrr) as [Hne Hj].
-      assert (Em : m ++ [c_nl] = l ++ c_nl :: (r ++ [c_nl])).
-      { rewrite E, <- app_assoc. reflexivity. }
-      rewrite Em, (scan_lines_app_nl l (r ++ [c_nl]) Hl (notin_last c_cr l Hcl)).
-      split; [discriminate|].
-      etransitivity; [exact (join_cons [c_nl] l _ Hne)|].
-      rewrite Hj, E. reflexivity.
-Qed.
-
-Theorem msg_lines : forall m, msg_ok m -> join [c_nl] (scan_lines (m ++ [c_nl])) = m.
-Proof.
-  intros m Hm. exact (proj2 (msg_lines_aux (length m) m (le_n _) Hm)).
-Qed.
+(* the reader splits at line feeds only and joins with line feeds: every
+   message comes back, whatever bytes it holds (carriage returns, empty,
+   ending in line feeds, lines of any length) *)
+Theorem msg_lines : forall m, join [c_nl] (lf_lines (m ++ [c_nl])) = m.
+Proof. exact lf_lines_join. Qed.
 (* ------------------------------------------------------------------ *)
 (** * 9. The commit text *)
 
@@ -633,33 +608,35 @@ Proof.
 Qed.
 
 (* one header line "<key> <body>\n" *)
-Lemma scan_header_line : forall p b rest,
-  ~ In c_nl (p ++ b) -> (p ++ b = [] \/ last (p ++ b) x00 <> c_cr) ->
-  scan_lines (p ++ b ++ [c_nl] ++ rest) = (p ++ b) :: scan_lines rest.
+Lemma lf_header_line : forall p b rest,
+  ~ In c_nl (p ++ b) ->
+  lf_lines (p ++ b ++ [c_nl] ++ rest) = (p ++ b) :: lf_lines rest.
 Proof.
-  intros p b rest Hnl Hcr. rewrite app_assoc.
+  intros p b rest Hnl. rewrite app_assoc.
   change ([c_nl] ++ rest) with (c_nl :: rest).
-  apply scan_lines_app_nl; assumption.
+  apply lf_lines_app_nl; assumption.
 Qed.
 
-Lemma scan_hex_line : forall p id rest,
-  contains_byte c_nl p = false -> contains_byte c_cr p = false ->
-  scan_lines (p ++ hex id ++ [c_nl] ++ rest) = (p ++ hex id) :: scan_lines rest.
+Lemma lf_hex_line : forall p id rest,
+  contains_byte c_nl p = false ->
+  lf_lines (p ++ hex id ++ [c_nl] ++ rest) = (p ++ hex id) :: lf_lines rest.
 Proof.
-  intros p id rest Hp Hq. apply scan_header_line.
-  - apply notin_app; [exact Hp | apply hex_no_byte; reflexivity].
-  - apply notin_last. apply notin_app; [exact Hq | apply hex_no_byte; reflexivity].
+  intros p id rest Hp. apply lf_header_line.
+  apply notin_app; [exact Hp | apply hex_no_byte; reflexivity].
 Qed.
 
-Lemma scan_sign_line : forall p a sa rest,
-  contains_byte c_nl p = false -> ~ In c_nl a -> read_sign a = Some sa ->
-  scan_lines (p ++ a ++ [c_nl] ++ rest) = (p ++ a) :: scan_lines rest.
+(* an author/committer line: any body without a line feed is kept whole *)
+Lemma lf_sign_line : forall p a rest,
+  contains_byte c_nl p = false -> ~ In c_nl a ->
+  lf_lines (p ++ a ++ [c_nl] ++ rest) = (p ++ a) :: lf_lines rest.
 Proof.
-  intros p a sa rest Hp Ha Hr. apply scan_header_line.
-  - apply notin_app; assumption.
-  - destruct (sign_line_end a (read_sign_gate a sa Hr)) as [Hne Hlast].
-    right. rewrite (last_app_ne p a x00 Hne). exact Hlast.
+  intros p a rest Hp Ha. apply lf_header_line. apply notin_app; assumption.
 Qed.
+
+(* the blank line and the message after it *)
+Lemma lf_blank_msg : forall msg,
+  lf_lines ([c_nl] ++ msg ++ [c_nl]) = [] :: lf_lines (msg ++ [c_nl]).
+Proof. intro msg. exact (lf_lines_nl (msg ++ [c_nl])). Qed.
 
 (* the reader's header loop, one kind of line at a time *)
 Lemma parse_headers_tree : forall body r c0,
@@ -701,50 +678,47 @@ Definition parent_list (parent : option bytes) : list bytes :=
   match parent with Some p => [p] | None => [] end.
 
 (* MAIN (commit text): what [commit_text] writes, [parse_commit] reads back,
-   field by field; the message comes back byte for byte when it has no '\r'
-   (also when it is empty or ends in one or more "\n"). *)
+   field by field; the message comes back byte for byte, whatever it is
+   (carriage returns, empty, ending in one or more "\n", lines of any length). *)
 Theorem parse_commit_roundtrip : forall tree parent a c sa sc msg,
   length tree = 20%nat ->
   (forall p, parent = Some p -> length p = 20%nat) ->
   read_sign a = Some sa -> read_sign c = Some sc ->
   ~ In c_nl a -> ~ In c_nl c ->
-  msg_ok msg ->
   parse_commit (commit_text tree (option_map hex parent) a c msg) =
   Some (mkCommit tree (parent_list parent) (Some sa) (Some sc) msg).
 Proof.
-  intros tree parent a c sa sc msg Htree Hparent Ha Hc Hanl Hcnl Hmsg.
+  intros tree parent a c sa sc msg Htree Hparent Ha Hc Hanl Hcnl.
   unfold parse_commit, commit_text.
-  rewrite (scan_hex_line (str "tree ") tree _ eq_refl eq_refl).
+  rewrite (lf_hex_line (str "tree ") tree _ eq_refl).
   rewrite parse_headers_tree, (read_hash_hex tree Htree).
   cbn [c_tree c_parents c_author c_committer c_msg].
   destruct parent as [p|]; cbn [option_map parent_list].
   - rewrite <- !app_assoc.
-    rewrite (scan_hex_line (str "parent ") p _ eq_refl eq_refl).
+    rewrite (lf_hex_line (str "parent ") p _ eq_refl).
     rewrite parse_headers_parent, (read_hash_hex p (Hparent p eq_refl)).
     cbn [c_tree c_parents c_author c_committer c_msg].
-    rewrite (scan_sign_line (str "author ") a sa _ eq_refl Hanl Ha).
+    rewrite (lf_sign_line (str "author ") a _ eq_refl Hanl).
     rewrite parse_headers_author, Ha.
     cbn [c_tree c_parents c_author c_committer c_msg].
-    rewrite (scan_sign_line (str "committer ") c sc _ eq_refl Hcnl Hc).
+    rewrite (lf_sign_line (str "committer ") c _ eq_refl Hcnl).
     rewrite parse_headers_committer, Hc.
     cbn [c_tree c_parents c_author c_committer c_msg].
-    change ([c_nl] ++ msg ++ [c_nl]) with ([] ++ c_nl :: (msg ++ [c_nl])).
-    rewrite (scan_lines_app_nl [] (msg ++ [c_nl]) (fun H => H) (or_introl eq_refl)).
+    rewrite lf_blank_msg.
     rewrite parse_headers_blank.
     cbn [c_tree c_parents c_author c_committer c_msg].
-    rewrite (msg_lines msg Hmsg). reflexivity.
+    rewrite (msg_lines msg). reflexivity.
   - rewrite app_nil_l.
-    rewrite (scan_sign_line (str "author ") a sa _ eq_refl Hanl Ha).
+    rewrite (lf_sign_line (str "author ") a _ eq_refl Hanl).
     rewrite parse_headers_author, Ha.
     cbn [c_tree c_parents c_author c_committer c_msg].
-    rewrite (scan_sign_line (str "committer ") c sc _ eq_refl Hcnl Hc).
+    rewrite (lf_sign_line (str "committer ") c _ eq_refl Hcnl).
     rewrite parse_headers_committer, Hc.
     cbn [c_tree c_parents c_author c_committer c_msg].
-    change ([c_nl] ++ msg ++ [c_nl]) with ([] ++ c_nl :: (msg ++ [c_nl])).
-    rewrite (scan_lines_app_nl [] (msg ++ [c_nl]) (fun H => H) (or_introl eq_refl)).
+    rewrite lf_blank_msg.
     rewrite parse_headers_blank.
     cbn [c_tree c_parents c_author c_committer c_msg].
-    rewrite (msg_lines msg Hmsg). reflexivity.
+    rewrite (msg_lines msg). reflexivity.
 Qed.
 (* ------------------------------------------------------------------ *)
 (** * 10. C12: a commit written with two generated lines reads back *)
@@ -790,14 +764,14 @@ Definition sign_ok (n e : bytes) (t off : Z) : Prop :=
 Theorem commit_roundtrip : forall tree parent na ea ta oa nc ec tc oc msg,
   length tree = 20%nat ->
   (forall p, parent = Some p -> length p = 20%nat) ->
-  sign_ok na ea ta oa -> sign_ok nc ec tc oc -> msg_ok msg ->
+  sign_ok na ea ta oa -> sign_ok nc ec tc oc ->
   parse_commit (commit_text tree (option_map hex parent)
                   (sign_string na ea ta oa) (sign_string nc ec tc oc) msg) =
   Some (mkCommit tree (parent_list parent)
           (Some (mkSign na ea ta oa)) (Some (mkSign nc ec tc oc)) msg).
 Proof.
   intros tree parent na ea ta oa nc ec tc oc msg Htree Hparent
-         [Hna [Hnla [Hea [Hta [Hoa Hma]]]]] [Hnc [Hnlc [Hec [Htc [Hoc Hmc]]]]] Hmsg.
+         [Hna [Hnla [Hea [Hta [Hoa Hma]]]]] [Hnc [Hnlc [Hec [Htc [Hoc Hmc]]]]].
   apply parse_commit_roundtrip.
   - exact Htree.
   - exact Hparent.
@@ -805,7 +779,6 @@ Proof.
   - apply sign_roundtrip; assumption.
   - apply sign_string_no_nl; [exact Hnla | exact Hea | lia | exact Hoa | exact Hma].
   - apply sign_string_no_nl; [exact Hnlc | exact Hec | lia | exact Hoc | exact Hmc].
-  - exact Hmsg.
 Qed.
 
 (* ------------------------------------------------------------------ *)
@@ -862,11 +835,30 @@ Example ex_off_seconds_lost :
 Proof. vm_compute. reflexivity. Qed.
 Example ex_name_lt_rejected : read_sign (sign_string [x61; x3c; x62] ex_email ex_t 0) = None.
 Proof. vm_compute. reflexivity. Qed.
-(* a '\r' in the message is not preserved *)
-Example ex_msg_cr_lost :
+(* carriage returns in the message are preserved: "l1\r\nl2\r" *)
+Definition ex_msg_cr : bytes := str "l1" ++ [c_cr; c_nl] ++ str "l2" ++ [c_cr].
+Example ex_msg_cr_kept :
   option_map c_msg (parse_commit (commit_text (repeat x01 20) None
-     (sign_string ex_name ex_email ex_t 0) (sign_string ex_name ex_email ex_t 0) [x61; c_cr; c_nl; x62]))
-  = Some [x61; c_nl; x62].
+     (sign_string ex_name ex_email ex_t 0) (sign_string ex_name ex_email ex_t 0) ex_msg_cr))
+  = Some ex_msg_cr.
+Proof. vm_compute. reflexivity. Qed.
+(* the whole commit, with a parent and two zones, message "l1\r\nl2\r"
+   written byte by byte *)
+Example ex_commit_cr_roundtrip :
+  parse_commit (commit_text (repeat x01 20) (Some (hex (repeat x02 20)))
+                  (sign_string ex_name ex_email 1700000000 (-12600))
+                  (sign_string ex_name ex_email 1700000000 50400)
+                  [x6c; x31; c_cr; c_nl; x6c; x32; c_cr]) =
+  Some (mkCommit (repeat x01 20) [repeat x02 20]
+          (Some (mkSign ex_name ex_email 1700000000 (-12600)))
+          (Some (mkSign ex_name ex_email 1700000000 50400))
+          [x6c; x31; c_cr; c_nl; x6c; x32; c_cr]).
+Proof. vm_compute. reflexivity. Qed.
+(* a carriage return at the end of a header line is kept too: such an
+   author line is then refused by the reader (the regexp ends in a digit) *)
+Example ex_header_cr_refused :
+  parse_commit (commit_text (repeat x01 20) None
+     (sign_string ex_name ex_email ex_t 0 ++ [c_cr]) (sign_string ex_name ex_email ex_t 0) (str "m")) = None.
 Proof. vm_compute. reflexivity. Qed.
 
 (* ------------------------------------------------------------------ *)
@@ -882,3 +874,4 @@ Print Assumptions parse_commit_roundtrip.
 Print Assumptions commit_roundtrip.
 Print Assumptions ex_sign_ok.
 Print Assumptions ex_sign_roundtrip.
+Print Assumptions ex_commit_cr_roundtrip.
